@@ -38,6 +38,15 @@
 // ErrReaderShutdown (no more of them than readers shut down directly by then)
 // still is a flush point for all other readers.
 //
+// The exporter of a periodic reader is a generated collaborator (see
+// exporter_test.go): it either stores what it is given in any state or
+// follows the documented Exporter contract (after its Shutdown, Export stores
+// nothing and returns an error), its Export / ForceFlush / Shutdown may
+// return scripted errors (after the payload was stored), and its Export may
+// itself record a measurement. The program may call ForceFlush directly on a
+// periodic reader, and may give Collect / ForceFlush an already cancelled
+// context (such a call is a collection point only if it returns nil).
+//
 // Two sub-checks share generator pieces, execution and oracle:
 // sum_conservation (concurrent programs, each executed twice) and
 // sequential_model (one goroutine: every bracket is an equality).
@@ -45,15 +54,26 @@
 // Readings of the statement (conservative where it is ambiguous):
 //   - "reported by a reader" = returned by a Collect call on the reader that
 //     returned nil, or contained in a payload handed to the reader's exporter
-//     (whatever happens afterwards). A user Collect on a PeriodicReader
+//     (whatever Export returns) BEFORE the reader called that exporter's
+//     Shutdown: the Exporter interface documents that Export performs no
+//     operation after Shutdown, so a payload handed over afterwards reaches
+//     nobody (only the "lenient" exporter variant stores it all the same; it
+//     is kept so that nothing is demanded from the order of calls as such).
+//     A user Collect on a PeriodicReader
 //     consumes the interval like an export: all consumers of a reader's
 //     pipeline are added up.
 //   - "through ForceFlush / Shutdown": a measurement whose Add returned before
 //     a ForceFlush / Shutdown call was issued has been reported by the time
 //     that call returns nil (delta: is part of the sum of everything reported
 //     so far; cumulative: some payload handed over so far contains it, and for
-//     Shutdown the LAST payload does). Calls that return an error are not
-//     asserted.
+//     Shutdown the LAST payload does). A call that returned an error is not
+//     asserted when the error is excused by a collaborator or by the caller:
+//     a scripted callback failure, a cancelled / expired context. Other
+//     errors do not excuse a loss: ErrReaderShutdown of readers the program
+//     shut down directly (the provider joins the errors of all readers), the
+//     scripted errors of the harness' exporters (returned after the payload
+//     was stored) and the refusal of a contract exporter (which the reader
+//     provoked itself by exporting after shutting the exporter down).
 //   - For an export only the instant Export was entered is known, not when
 //     its collection started; lower bounds are therefore asserted for
 //     ManualReader collections, ForceFlush and Shutdown only, upper bounds
@@ -114,11 +134,24 @@ type Reader struct {
 	// reader); the provider-level view sets an explicit sum aggregation, which
 	// overrides the reader default, so this reader must see everything too.
 	DropDefault bool `json:"drop_default,omitempty"`
+	// Exp (periodic): life cycle of the recording exporter: "" stores what it is
+	// given in any state; "contract" / "contract_own" follow the documented
+	// Exporter contract: after its Shutdown was called, Export stores nothing
+	// and returns an error (sdkmetric.ErrExporterShutdown / an error of its own)
+	Exp string `json:"exp,omitempty"`
+	// ExpFail (periodic): "" | "export" (every ExpFailEvery-th Export returns an
+	// error after storing the payload) | "flush" | "shutdown" (the exporter's
+	// ForceFlush / Shutdown return an error)
+	ExpFail      string `json:"exp_fail,omitempty"`
+	ExpFailEvery int    `json:"exp_fail_every,omitempty"`
+	// ExpAdd (periodic): Export itself records a measurement (of 2^20 units on
+	// instrument <reader index mod instruments>, attribute set 0), at most 40
+	ExpAdd bool `json:"exp_add,omitempty"`
 }
 
 // Op is one step of one goroutine.
 type Op struct {
-	K string `json:"k"`           // add | collect | flush | sleep | reader_shutdown (Shutdown called directly on reader R)
+	K string `json:"k"`           // add | collect | flush | sleep | reader_shutdown (Shutdown called directly on reader R) | reader_flush (ForceFlush called directly on periodic reader R)
 	P int    `json:"p,omitempty"` // perturbation before the op (vk.Perturb)
 	I int    `json:"i,omitempty"` // add: instrument index
 	S int    `json:"s,omitempty"` // add: attribute set index
@@ -128,9 +161,11 @@ type Op struct {
 	// (the API merges them, a later option winning on a shared key): 0 one
 	// option (see A); 1 two WithAttributes options (list cut in the middle);
 	// 2 one WithAttributes option per key, keys in DESCENDING order; 3
-	// WithAttributeSet(first half) followed by WithAttributes(second half)
+	// WithAttributeSet(first half) followed by WithAttributes(second half); 4
+	// no option at all when the set is empty
 	M int  `json:"m,omitempty"`
-	R int  `json:"r,omitempty"` // collect / reader_shutdown: reader index
+	R int  `json:"r,omitempty"` // collect / reader_shutdown / reader_flush: reader index
+	X bool `json:"x,omitempty"` // collect / flush / reader_flush: the call is given an already cancelled context
 	F bool `json:"f,omitempty"` // collect: use a fresh ResourceMetrics instead of the goroutine's reused one
 	D int  `json:"d,omitempty"` // sleep: 0 300us, 1 1ms, 2 3ms, 3 6ms
 }
@@ -240,7 +275,7 @@ func genWorld(t *rapid.T) Case {
 	for _, u := range rapid.SliceOfNDistinct(rapid.IntRange(0, len(universe)-1), ns, ns, rapid.ID[int]).Draw(t, "set_ids") {
 		c.Sets = append(c.Sets, universe[u])
 	}
-	nr := rapid.IntRange(1, 3).Draw(t, "readers")
+	nr := rapid.SampledFrom([]int{1, 1, 2, 2, 2, 3, 3, 3, 4, 5}).Draw(t, "readers")
 	for r := 0; r < nr; r++ {
 		rd := Reader{
 			Kind: rapid.SampledFrom([]string{"manual", "periodic"}).Draw(t, "reader_kind"),
@@ -249,6 +284,12 @@ func genWorld(t *rapid.T) Case {
 		if rd.Kind == "periodic" {
 			rd.IntervalUs = rapid.SampledFrom([]int64{1000, 1000, 2000, 3000, 5000, 3600e6}).Draw(t, "interval")
 			rd.ExportP = rapid.SampledFrom([]int{0, 0, 1, 2, 3}).Draw(t, "export_p")
+			rd.Exp = rapid.SampledFrom([]string{"", "contract", "contract", "contract_own"}).Draw(t, "exporter_life_cycle")
+			rd.ExpFail = rapid.SampledFrom([]string{"", "", "", "", "", "", "export", "flush", "shutdown"}).Draw(t, "exporter_failure")
+			if rd.ExpFail == "export" {
+				rd.ExpFailEvery = rapid.IntRange(1, 3).Draw(t, "exporter_fails_every")
+			}
+			rd.ExpAdd = rapid.IntRange(0, 5).Draw(t, "exporter_records") == 0
 		}
 		c.Readers = append(c.Readers, rd)
 	}
@@ -267,7 +308,7 @@ func (g *addGen) draw(t *rapid.T, pert []int) Op {
 	op.I = rapid.IntRange(0, len(g.c.Insts)-1).Draw(t, "i")
 	op.S = rapid.IntRange(0, len(g.c.Sets)-1).Draw(t, "s")
 	op.A = rapid.IntRange(0, 3).Draw(t, "with_attributes") == 0
-	op.M = rapid.SampledFrom([]int{0, 0, 0, 0, 0, 1, 2, 3}).Draw(t, "multi_option")
+	op.M = rapid.SampledFrom([]int{0, 0, 0, 0, 0, 1, 2, 3, 4}).Draw(t, "multi_option")
 	id := int64(g.next%1023) + 1
 	g.next++
 	switch k := rapid.IntRange(0, 15).Draw(t, "vkind"); {
@@ -284,9 +325,19 @@ func (g *addGen) draw(t *rapid.T, pert []int) Op {
 	return op
 }
 
-func genCollectorOp(t *rapid.T, nr int, pert []int, sleeps bool) Op {
+func genCollectorOp(t *rapid.T, rds []Reader, pert []int, sleeps bool) Op {
+	nr := len(rds)
 	op := Op{P: rapid.SampledFrom(pert).Draw(t, "p")}
-	switch k := rapid.IntRange(0, 9).Draw(t, "ckind"); {
+	var periodic []int
+	for i, r := range rds {
+		if r.Kind == "periodic" {
+			periodic = append(periodic, i)
+		}
+	}
+	switch k := rapid.IntRange(0, 10).Draw(t, "ckind"); {
+	case k == 10 && len(periodic) > 0:
+		op.K = "reader_flush"
+		op.R = rapid.SampledFrom(periodic).Draw(t, "r")
 	case k < 6 || (k >= 8 && !sleeps):
 		op.K = "collect"
 		op.R = rapid.IntRange(0, nr-1).Draw(t, "r")
@@ -296,6 +347,9 @@ func genCollectorOp(t *rapid.T, nr int, pert []int, sleeps bool) Op {
 	default:
 		op.K = "sleep"
 		op.D = rapid.IntRange(0, 3).Draw(t, "d")
+	}
+	if op.K != "sleep" {
+		op.X = rapid.IntRange(0, 11).Draw(t, "cancelled_ctx") == 0
 	}
 	return op
 }
@@ -339,7 +393,6 @@ func genSumView(t *rapid.T, c *Case) {
 func gen(t *rapid.T) Case {
 	c := genWorld(t)
 	ag := &addGen{c: &c}
-	nr := len(c.Readers)
 	nphases := rapid.IntRange(1, 4).Draw(t, "phases")
 	for p := 0; p < nphases; p++ {
 		var phase [][]Op
@@ -364,7 +417,7 @@ func gen(t *rapid.T) Case {
 			n := rapid.IntRange(1, 14).Draw(t, "cops")
 			ops := []Op{}
 			for i := 0; i < n; i++ {
-				ops = append(ops, genCollectorOp(t, nr, mixed, true))
+				ops = append(ops, genCollectorOp(t, c.Readers, mixed, true))
 			}
 			phase = append(phase, ops)
 		}
@@ -404,7 +457,7 @@ func genSeq(t *rapid.T) Case {
 		if rapid.IntRange(0, 9).Draw(t, "what") < 6 {
 			ops = append(ops, ag.draw(t, none))
 		} else {
-			ops = append(ops, genCollectorOp(t, len(c.Readers), none, rapid.IntRange(0, 9).Draw(t, "sleeps") == 0))
+			ops = append(ops, genCollectorOp(t, c.Readers, none, rapid.IntRange(0, 9).Draw(t, "sleeps") == 0))
 		}
 	}
 	c.Phases = [][][]Op{{ops}}
@@ -573,10 +626,11 @@ func (c *consumer) label() string {
 }
 
 type callRec struct {
-	kind       string // flush | shutdown (provider) | reader_shutdown (directly on one reader)
-	reader     int    // reader_shutdown: which
+	kind       string // flush | shutdown (provider) | reader_shutdown / reader_flush (directly on one reader)
+	reader     int    // reader_shutdown / reader_flush: which
 	start, end int64
 	err        error
+	cancelled  bool // the call was given a cancelled context
 }
 
 // onlyReaderShutdown reports whether err is made of nothing but
@@ -718,45 +772,6 @@ func (w *world) extract(rm *metricdata.ResourceMetrics, reader int) (map[stream]
 	}
 	return pts, probs
 }
-
-// recExporter records every payload (copied inside Export).
-type recExporter struct {
-	w        *world
-	reader   int
-	spec     Reader
-	inflight atomic.Int32
-	overlap  atomic.Int32
-}
-
-func (e *recExporter) Temporality(k sdkmetric.InstrumentKind) metricdata.Temporality {
-	return selector(e.spec)(k)
-}
-
-func (e *recExporter) Aggregation(k sdkmetric.InstrumentKind) sdkmetric.Aggregation {
-	return sdkmetric.DefaultAggregationSelector(k)
-}
-
-func (e *recExporter) Export(_ context.Context, rm *metricdata.ResourceMetrics) error {
-	if e.inflight.Add(1) > 1 {
-		e.overlap.Add(1)
-	}
-	defer e.inflight.Add(-1)
-	enter := e.w.clock.Tick()
-	pts, probs := e.w.extract(rm, e.reader)
-	co := &consumer{reader: e.reader, export: true, start: -1, end: enter, pts: pts, probs: probs}
-	e.w.mu.Lock()
-	e.w.cons = append(e.w.cons, co)
-	e.w.mu.Unlock()
-	vk.Perturb(e.spec.ExportP)
-	exit := e.w.clock.Tick()
-	e.w.mu.Lock()
-	co.exit = exit
-	e.w.mu.Unlock()
-	return nil
-}
-
-func (e *recExporter) ForceFlush(context.Context) error { return nil }
-func (e *recExporter) Shutdown(context.Context) error   { return nil }
 
 var errFailCB = errors.New("c02: scripted callback failure")
 
@@ -1059,6 +1074,8 @@ func runOnce(c Case) ([]vk.Violation, map[string]bool) {
 		case op.M == 3 && len(list) >= 2:
 			h := len(list) / 2
 			o = []metric.AddOption{metric.WithAttributeSet(attribute.NewSet(append([]attribute.KeyValue{}, list[:h]...)...)), metric.WithAttributes(list[h:]...)}
+		case op.M == 4 && len(list) == 0:
+			o = nil // no option at all: the empty attribute set
 		case op.A:
 			o = []metric.AddOption{metric.WithAttributes(list...)}
 		default:
@@ -1069,11 +1086,39 @@ func runOnce(c Case) ([]vk.Violation, map[string]bool) {
 		a.end = clock.Tick()
 		a.done = true
 	}
+	// measurements recorded from inside Export (Reader.ExpAdd)
+	var xmu sync.Mutex
+	var extra []*addRec
+	for ri, e := range exps {
+		if e == nil || !c.Readers[ri].ExpAdd {
+			continue
+		}
+		ii := ri % len(c.Insts)
+		op := Op{K: "add", I: ii, S: 0, V: exportAddUnits}
+		fn := func() {
+			a := &addRec{inst: canon[ii], raw: ii, set: keys[0], units: exportAddUnits, where: "export"}
+			doAdd(a, op)
+			xmu.Lock()
+			extra = append(extra, a)
+			xmu.Unlock()
+		}
+		e.mu.Lock()
+		e.addFn = fn
+		e.mu.Unlock()
+	}
 	var collectErrs atomic.Int32
 	var classesMu sync.Mutex
-	doCollect := func(ri int, rm *metricdata.ResourceMetrics) *consumer {
+	dead, kill := context.WithCancel(ctx)
+	kill()
+	ctxFor := func(cancelled bool) context.Context {
+		if cancelled {
+			return dead
+		}
+		return ctx
+	}
+	doCollect := func(ri int, rm *metricdata.ResourceMetrics, cancelled bool) *consumer {
 		start := clock.Tick()
-		err := colls[ri].Collect(ctx, rm)
+		err := colls[ri].Collect(ctxFor(cancelled), rm)
 		end := clock.Tick()
 		if err != nil && c.FailCB != 0 && errors.Is(err, errFailCB) {
 			// only the unrelated callback failed: the collection was made
@@ -1095,15 +1140,18 @@ func runOnce(c Case) ([]vk.Violation, map[string]bool) {
 	}
 	var cmu sync.Mutex
 	var calls []*callRec
-	doCall := func(kind string, reader ...int) *callRec {
-		r := &callRec{kind: kind, reader: -1}
+	doCall := func(kind string, cancelled bool, reader ...int) *callRec {
+		r := &callRec{kind: kind, reader: -1, cancelled: cancelled}
 		r.start = clock.Tick()
 		switch kind {
 		case "flush":
-			r.err = mp.ForceFlush(ctx)
+			r.err = mp.ForceFlush(ctxFor(cancelled))
 		case "reader_shutdown":
 			r.reader = reader[0]
 			r.err = colls[r.reader].Shutdown(ctx)
+		case "reader_flush":
+			r.reader = reader[0]
+			r.err = colls[r.reader].(*sdkmetric.PeriodicReader).ForceFlush(ctxFor(cancelled))
 		default:
 			r.err = mp.Shutdown(ctx)
 		}
@@ -1128,11 +1176,15 @@ func runOnce(c Case) ([]vk.Violation, map[string]bool) {
 					if op.F {
 						rm = &metricdata.ResourceMetrics{}
 					}
-					_ = doCollect(idx(op.R, len(c.Readers)), rm)
+					_ = doCollect(idx(op.R, len(c.Readers)), rm, op.X)
 				case "flush":
-					doCall("flush")
+					doCall("flush", op.X)
 				case "reader_shutdown":
-					doCall("reader_shutdown", idx(op.R, len(c.Readers)))
+					doCall("reader_shutdown", false, idx(op.R, len(c.Readers)))
+				case "reader_flush":
+					if ri := idx(op.R, len(c.Readers)); c.Readers[ri].Kind == "periodic" {
+						doCall("reader_flush", op.X, ri)
+					}
 				case "sleep":
 					time.Sleep(sleepFor(op.D))
 				}
@@ -1145,14 +1197,14 @@ func runOnce(c Case) ([]vk.Violation, map[string]bool) {
 	finalCollect := make([]*consumer, len(c.Readers))
 	for ri, rd := range c.Readers {
 		if rd.Kind != "periodic" {
-			finalCollect[ri] = doCollect(ri, &metricdata.ResourceMetrics{})
+			finalCollect[ri] = doCollect(ri, &metricdata.ResourceMetrics{}, false)
 		}
 	}
 	var shutdown *callRec
 	if len(lateConc) > 0 {
 		vk.Parallel(2, func(g int) {
 			if g == 0 {
-				shutdown = doCall("shutdown")
+				shutdown = doCall("shutdown", false)
 				return
 			}
 			for i, a := range lateConc {
@@ -1161,14 +1213,14 @@ func runOnce(c Case) ([]vk.Violation, map[string]bool) {
 			}
 		})
 	} else {
-		shutdown = doCall("shutdown")
+		shutdown = doCall("shutdown", false)
 	}
 	for i, a := range late {
 		doAdd(a, c.Late[i])
 	}
 	lateCollected := 0
 	for ri := range c.Readers {
-		if doCollect(ri, &metricdata.ResourceMetrics{}) != nil {
+		if doCollect(ri, &metricdata.ResourceMetrics{}, false) != nil {
 			lateCollected++
 		}
 	}
@@ -1179,6 +1231,15 @@ func runOnce(c Case) ([]vk.Violation, map[string]bool) {
 	w.mu.Lock()
 	cons := append([]*consumer{}, w.cons...)
 	w.mu.Unlock()
+	xmu.Lock()
+	for _, a := range extra {
+		a.id = len(adds)
+		adds = append(adds, a)
+	}
+	if len(extra) > 0 {
+		classes["measurement_recorded_inside_export"] = true
+	}
+	xmu.Unlock()
 	byStream := map[stream][]*addRec{}
 	for _, a := range adds {
 		if a.done {
@@ -1243,52 +1304,98 @@ func runOnce(c Case) ([]vk.Violation, map[string]bool) {
 		// Direct Shutdown calls on this reader: its pipeline ends there. The call
 		// that returned nil performed the reader's final collection (periodic).
 		firstDirect := never // first direct Shutdown issued on this reader
-		var ownShutdown *callRec
 		for _, r := range calls {
-			if r.kind == "reader_shutdown" && r.reader == ri {
-				if r.start < firstDirect {
-					firstDirect = r.start
-				}
-				if r.err == nil {
-					ownShutdown = r
-				}
+			if r.kind == "reader_shutdown" && r.reader == ri && r.start < firstDirect {
+				firstDirect = r.start
 			}
 		}
+		// flushes decides whether a ForceFlush / Shutdown call that returned err
+		// flushed this reader all the same (see classifyErr): nil, or an error
+		// made of ErrReaderShutdown (no more of them than readers the program had
+		// shut down directly by then: the provider calls every reader and joins
+		// the errors) and of errors of the harness' exporters, which are returned
+		// after the collection was made and handed over.
+		flushes := func(r *callRec) bool {
+			if r.err == nil {
+				return true
+			}
+			k := classifyErr(r.err, r.cancelled)
+			if k.excused != "" {
+				classes[r.kind+"_not_a_flush_point:"+k.excused] = true
+				return false
+			}
+			direct := map[int]bool{}
+			for _, d := range calls {
+				if d.kind == "reader_shutdown" && d.start < r.end {
+					direct[d.reader] = true
+				}
+			}
+			if k.readerShutdown > len(direct) {
+				classes[r.kind+"_returned_error"] = true
+				return false
+			}
+			if k.readerShutdown > 0 {
+				classes[r.kind+"_reported_only_reader_is_shutdown"] = true
+			}
+			if k.exporter > 0 {
+				classes[r.kind+"_reported_exporter_error(flush point all the same)"] = true
+			}
+			if k.unexplained > 0 {
+				classes[r.kind+"_reported_unexplained_error(flush point all the same)"] = true
+			}
+			return true
+		}
+		var ownShutdown *callRec
 		if periodic {
 			for _, r := range calls {
-				if r.kind == "reader_shutdown" {
-					continue
-				}
-				if r.err != nil {
-					// an error made only of ErrReaderShutdown, no more of them than
-					// readers the program had shut down directly by then: every other
-					// reader was flushed / shut down (the provider calls all of them)
-					n, only := onlyReaderShutdown(r.err)
-					direct := map[int]bool{}
-					for _, d := range calls {
-						if d.kind == "reader_shutdown" && d.start < r.end {
-							direct[d.reader] = true
-						}
+				switch r.kind {
+				case "reader_shutdown":
+					// the direct Shutdown call that did the work (the others only
+					// report ErrReaderShutdown) performed the reader's final collection
+					if r.reader == ri && r.err != sdkmetric.ErrReaderShutdown && ownShutdown == nil && flushes(r) { //nolint:errorlint // identity wanted
+						ownShutdown = r
 					}
-					if !only || n > len(direct) {
-						classes[r.kind+"_returned_error"] = true
+					continue
+				case "reader_flush":
+					if r.reader != ri {
 						continue
 					}
-					classes[r.kind+"_reported_only_reader_is_shutdown"] = true
 				}
-				if r.kind == "flush" && shutdown != nil && r.end > shutdown.start {
+				if r.kind != "shutdown" && shutdown != nil && r.end > shutdown.start {
 					continue // overlaps or follows Shutdown
 				}
 				if r.kind == "shutdown" && r != shutdown {
 					continue
 				}
 				if r.end > firstDirect {
-					continue // this reader was (being) shut down directly: the provider call does not reach it
+					continue // this reader was (being) shut down directly: the call does not reach it
 				}
-				fps = append(fps, flushPoint{fmt.Sprintf("%s (t=%d..%d)", map[string]string{"flush": "ForceFlush", "shutdown": "Shutdown"}[r.kind], r.start, r.end), r.start, r.end, r.kind == "shutdown"})
+				if !flushes(r) {
+					continue
+				}
+				name := map[string]string{"flush": "ForceFlush", "shutdown": "Shutdown", "reader_flush": "ForceFlush of the reader itself"}[r.kind]
+				fps = append(fps, flushPoint{fmt.Sprintf("%s (t=%d..%d)", name, r.start, r.end), r.start, r.end, r.kind == "shutdown"})
 			}
 			if ownShutdown != nil {
 				fps = append(fps, flushPoint{fmt.Sprintf("Shutdown of the reader itself (t=%d..%d)", ownShutdown.start, ownShutdown.end), ownShutdown.start, ownShutdown.end, true})
+			}
+			// payloads handed over after the reader had shut its exporter down
+			closedAt, refused, lateOK := exps[ri].state()
+			if len(refused) > 0 {
+				classes["payload_refused_by_exporter_after_its_shutdown"] = true
+				n := 0
+				for _, co := range refused {
+					n += len(co.pts)
+				}
+				note := fmt.Sprintf(" [the reader called Shutdown of its exporter at t=%d and handed it %d payload(s) with %d data points AFTERWARDS (first at t=%d): an exporter that follows the documented contract performs no operation then, those points are reported nowhere]", closedAt, len(refused), n, refused[0].end)
+				for i := range fps {
+					if fps[i].final {
+						fps[i].what += note
+					}
+				}
+			}
+			if lateOK > 0 {
+				classes["payload_handed_to_lenient_exporter_after_its_shutdown"] = true
 			}
 		}
 		if firstDirect != never {
@@ -1539,18 +1646,42 @@ func runOnce(c Case) ([]vk.Violation, map[string]bool) {
 	}
 
 	if len(vs) > 0 {
-		vs[0].Observed = history(c, adds, cons, calls, errs.Errors())
+		var more []tline
+		for ri, e := range exps {
+			if e == nil {
+				continue
+			}
+			closedAt, refused, _ := e.state()
+			if closedAt != 0 {
+				more = append(more, tline{closedAt, fmt.Sprintf("t=%d Shutdown of the exporter of reader %d (exporter: %q)", closedAt, ri, c.Readers[ri].Exp)})
+			}
+			for _, co := range refused {
+				more = append(more, tline{co.end, fmt.Sprintf("t=%d Export reader %d REFUSED, the exporter had been shut down (stores nothing): %s", co.end, ri, ptsString(co))})
+			}
+		}
+		vs[0].Observed = history(c, adds, cons, calls, errs.Errors(), more)
 	}
 	return vs, classes
 }
 
 // history renders what happened, ordered by the logical clock.
-func history(c Case, adds []*addRec, cons []*consumer, calls []*callRec, errs []error) []string {
-	type line struct {
-		t int64
-		s string
+type tline struct {
+	t int64
+	s string
+}
+
+func ptsString(co *consumer) string {
+	var ps []string
+	for s, v := range co.pts {
+		ps = append(ps, fmt.Sprintf("%v=%d", s, v))
 	}
-	var ls []line
+	sort.Strings(ps)
+	return strings.Join(ps, " ")
+}
+
+func history(c Case, adds []*addRec, cons []*consumer, calls []*callRec, errs []error, more []tline) []string {
+	type line = tline
+	ls := append([]line{}, more...)
 	for _, a := range adds {
 		if a.done {
 			ls = append(ls, line{a.start, fmt.Sprintf("t=%d..%d Add#%d %s%s %+d units (%s)", a.start, a.end, a.id, instName(a.inst), a.set, a.units, a.where)})
@@ -1572,6 +1703,12 @@ func history(c Case, adds []*addRec, cons []*consumer, calls []*callRec, errs []
 		what := r.kind
 		if r.kind == "reader_shutdown" {
 			what = fmt.Sprintf("Shutdown of reader %d", r.reader)
+		}
+		if r.kind == "reader_flush" {
+			what = fmt.Sprintf("ForceFlush of reader %d", r.reader)
+		}
+		if r.cancelled {
+			what += " (cancelled context)"
 		}
 		ls = append(ls, line{r.start, fmt.Sprintf("t=%d..%d %s -> %v", r.start, r.end, what, r.err)})
 	}
@@ -1616,6 +1753,11 @@ func run(c Case) ([]vk.Violation, vk.Info) {
 		info.Class("reader:" + r.Kind + "/" + r.Temp)
 		kinds[r.Temp] = true
 		info.ClassIf(r.Kind == "periodic" && r.IntervalUs > 1e6, "periodic_reader_without_ticks")
+		if r.Kind == "periodic" {
+			info.Class("exporter:" + map[string]string{"": "lenient(stores in any state)", "contract": "contract(refuses Export after Shutdown, ErrExporterShutdown)", "contract_own": "contract(refuses Export after Shutdown, own error)"}[r.Exp])
+			info.ClassIf(r.ExpFail != "", "exporter_fails:"+r.ExpFail)
+			info.ClassIf(r.ExpAdd, "exporter_records_a_measurement_in_export")
+		}
 	}
 	info.ClassIf(c.Broken != "", "extra_misconfigured_reader")
 	info.ClassIf(c.SumView, "explicit_sum_view")
@@ -1623,14 +1765,25 @@ func run(c Case) ([]vk.Violation, vk.Info) {
 		info.ClassIf(r.DropDefault && c.SumView, "allow_list_reader(drop by default, view overrides)")
 	}
 	info.ClassIf(len(c.Readers) >= 2, "two_or_more_readers")
+	info.ClassIf(len(c.Readers) >= 4, "four_or_more_readers")
 	info.ClassIf(len(kinds) >= 2, "mixed_temporalities")
 	nadds, zero, neg, recorders := 0, false, false, 0
 	usedSets := map[int]bool{}
+	opClasses := map[string]bool{}
 	for _, ph := range c.Phases {
 		n := 0
 		for _, ops := range ph {
 			has := false
 			for _, op := range ops {
+				if op.K == "reader_flush" {
+					opClasses["forceflush_called_on_the_reader_itself"] = true
+				}
+				if op.X {
+					opClasses[op.K+"_with_cancelled_context"] = true
+				}
+				if op.K == "add" && op.M == 4 && len(c.Sets[idx(op.S, len(c.Sets))]) == 0 {
+					opClasses["add_without_any_option"] = true
+				}
 				if op.K == "add" {
 					has = true
 					nadds++
@@ -1646,6 +1799,9 @@ func run(c Case) ([]vk.Violation, vk.Info) {
 		if n > recorders {
 			recorders = n
 		}
+	}
+	for k := range opClasses {
+		info.Class(k)
 	}
 	for _, in := range c.Insts {
 		info.Class("instrument:" + in.Kind)
@@ -1695,7 +1851,7 @@ func runSeq(c Case) ([]vk.Violation, vk.Info) {
 					if state == 1 {
 						state = 2
 					}
-				case "collect", "flush":
+				case "collect", "flush", "reader_flush":
 					if state == 2 {
 						between = true
 					}
@@ -1715,7 +1871,7 @@ func runSeq(c Case) ([]vk.Violation, vk.Info) {
 func TestSequentialModel(t *testing.T) {
 	vk.Run(t, vk.Spec[Case]{
 		Property: "C02", Check: "sequential_model",
-		Rule: "the same instruments / attribute-set pool / readers as sum_conservation, but one goroutine issuing 1-80 Adds, Collects (any reader, reused or fresh ResourceMetrics), ForceFlushes, rare sleeps and (a quarter of the cases) 1-2 direct Shutdown calls on a reader in sequence, final Collect, Shutdown, late calls: every bracket collapses to equality with the model at every collection point (interval exports of periodic readers still run beside it); " +
+		Rule: "the same instruments / attribute-set pool / readers as sum_conservation, but one goroutine issuing 1-80 Adds, Collects (any reader, reused or fresh ResourceMetrics), ForceFlushes (provider, or directly on a periodic reader; a twelfth of the calls with a cancelled context), rare sleeps and (a quarter of the cases) 1-2 direct Shutdown calls on a reader in sequence, final Collect, Shutdown, late calls: every bracket collapses to equality with the model at every collection point (interval exports of periodic readers still run beside it); " +
 			"non-trivial = >= 2 Adds and at least one Add between two collection points; distinct = distinct case encodings",
 		Quick: 1500, Thorough: 15000,
 		Gen: genSeq, Run: runSeq, Repeat: 20, Known: known,
@@ -1725,7 +1881,7 @@ func TestSequentialModel(t *testing.T) {
 func TestSumConservation(t *testing.T) {
 	vk.Run(t, vk.Spec[Case]{
 		Property: "C02", Check: "sum_conservation",
-		Rule: "generated concurrent programs: 1-4 instruments (Int64/Float64 Counter/UpDownCounter, two meters; in a quarter of the cases 2-4 instruments of one meter - and optionally 1-2 of the other meter - share ONE name and differ in kind / number type), a pool of 1-6 near-identical attribute sets, 1-3 readers (ManualReader or PeriodicReader with a recording exporter and a 1 ms - 5 ms or 1 h interval; delta / cumulative / delta-for-counters temporality), 1-4 barrier-separated phases of 1-8 recorder goroutines (0-200 Adds of exact, pairwise distinct values, <= 1000 per program) and 0-3 collector goroutines (Collect on any reader, provider ForceFlush, sleeps) with generated schedule perturbations, in a quarter of the cases 1-2 direct Shutdown calls on a reader at a generated position, a final Collect on manual readers, Shutdown (optionally racing further Adds) and late calls; each program is executed twice; " +
+		Rule: "generated concurrent programs: 1-4 instruments (Int64/Float64 Counter/UpDownCounter, two meters; in a quarter of the cases 2-4 instruments of one meter - and optionally 1-2 of the other meter - share ONE name and differ in kind / number type), a pool of 1-6 near-identical attribute sets, 1-5 readers (ManualReader or PeriodicReader with a 1 ms - 5 ms or 1 h interval and a recording exporter that is lenient or follows the Exporter contract (refuses Export after its Shutdown), optionally with scripted Export / ForceFlush / Shutdown errors or recording a measurement inside Export; delta / cumulative / delta-for-counters temporality), 1-4 barrier-separated phases of 1-8 recorder goroutines (0-200 Adds of exact, pairwise distinct values, <= 1000 per program) and 0-3 collector goroutines (Collect on any reader, provider ForceFlush, ForceFlush of a periodic reader itself, a twelfth of them with a cancelled context, sleeps) with generated schedule perturbations, in a quarter of the cases 1-2 direct Shutdown calls on a reader at a generated position, a final Collect on manual readers, Shutdown (optionally racing further Adds) and late calls; each program is executed twice; " +
 			"non-trivial = >= 1 collection (Collect / ForceFlush by logical-clock overlap, or an export whose collection window contains an Add) ran concurrently with >= 1 Add and >= 2 collections happened; distinct = distinct case encodings",
 		Quick: 300, Thorough: 3000,
 		Gen: gen, Run: run, Repeat: 100, Known: known,
